@@ -9,6 +9,8 @@ import (
 	"hash/crc32"
 	"math"
 	"math/rand"
+	"reflect"
+	"strconv"
 	"strings"
 
 	gio "github.com/whatap/golib/io"
@@ -26,13 +28,18 @@ type Ctor struct {
 	Default bool
 	Cap     int
 	LF      float32
+	None    int32 // IntIntMap only: what its public NONE field is set to (0 = left at its default)
 }
 
 func (c Ctor) String() string {
+	s := fmt.Sprintf("cap=%d,lf=%g", c.Cap, c.LF)
 	if c.Default {
-		return "default"
+		s = "default"
 	}
-	return fmt.Sprintf("cap=%d,lf=%g", c.Cap, c.LF)
+	if c.None != 0 {
+		s += fmt.Sprintf(",NONE=%d", c.None)
+	}
+	return s
 }
 
 func (c Ctor) cap0() int {
@@ -159,22 +166,100 @@ func strKeys(r *rand.Rand, n int, caps []uint, small bool) []string {
 	return pickKeys(r, n, cand, strSpecials, hStr, caps, nil, 150000)
 }
 
-func pObj(x interface{}) []int {
-	switch v := x.(type) {
-	case nil:
-		return []int{}
-	case int:
-		return []int{v}
+// NilV is the value code of the nil object (PlainMap.tla NilV).
+const NilV = -1
+
+// The values of an IntKeyMap are objects (interface{}).  A value code v >= 0 is
+// boxed as an object whose dynamic type depends on v, so that the histories
+// store every kind of object the API accepts, in particular the ones that look
+// like "nothing": the nil object (code NilV), the number 0, the empty string, a
+// typed nil pointer (an interface value that is NOT nil), a zero-size struct.
+// Equal codes box to values that are equal under ==, different codes to
+// different values; unbox is the inverse (anything else is Bad).
+type boxT struct{ v int }
+type emptyT struct{}
+
+const maxCode = 255 // value codes are 0..maxCode (and NilV)
+
+var boxPtrs = func() map[int]*boxT {
+	m := map[int]*boxT{}
+	for v := 0; v <= maxCode; v++ {
+		if v%5 == 3 && v != 3 {
+			m[v] = &boxT{v}
+		}
 	}
-	return []int{Bad}
+	return m
+}()
+
+func box(v int) interface{} {
+	switch {
+	case v == NilV:
+		return nil
+	case v < 0 || v > maxCode:
+		panic("c12: value code out of range for an object value")
+	case v == 1:
+		return ""
+	case v == 3:
+		return (*boxT)(nil)
+	case v == 5:
+		return emptyT{}
+	}
+	switch v % 5 {
+	case 0:
+		return v // int
+	case 1:
+		return fmt.Sprintf("s%d", v)
+	case 2:
+		return int32(v) // a number of another type: not equal to the int of the same magnitude
+	case 3:
+		return boxPtrs[v]
+	}
+	return float64(v) + 0.5
 }
 
-func pObj1(x interface{}) int {
-	if v, ok := x.(int); ok {
-		return v
+func unbox(x interface{}) int {
+	v := Bad
+	switch t := x.(type) {
+	case nil:
+		return NilV
+	case int:
+		v = t
+	case string:
+		if t == "" {
+			return 1
+		}
+		if n, err := strconv.Atoi(strings.TrimPrefix(t, "s")); err == nil && strings.HasPrefix(t, "s") {
+			v = n
+		}
+	case int32:
+		v = int(t)
+	case *boxT:
+		if t == nil {
+			return 3
+		}
+		if boxPtrs[t.v] == t {
+			v = t.v
+		}
+	case emptyT:
+		return 5
+	case float64:
+		v = int(t - 0.5)
 	}
-	return Bad
+	if v < 0 || v > maxCode || !reflect.DeepEqual(box(v), x) { // only what box produces is a value code
+		return Bad
+	}
+	return v
 }
+
+// pObj projects an answer of an object-valued call: <<>> for nil, <<code>> otherwise
+func pObj(x interface{}) []int {
+	if x == nil {
+		return []int{}
+	}
+	return []int{unbox(x)}
+}
+
+func pObj1(x interface{}) int { return unbox(x) }
 
 const enumSlack = 8 // an enumeration is cut this many elements after Size() (a corrupted chain may never end)
 
@@ -203,10 +288,16 @@ func items(s string, sep string) int {
 // ------------------------------------------------------------------ IntIntMap
 
 func newIntIntMap(c Ctor) *hmap.IntIntMap {
+	var m *hmap.IntIntMap
 	if c.Default {
-		return hmap.NewIntIntMapDefault()
+		m = hmap.NewIntIntMapDefault()
+	} else {
+		m = hmap.NewIntIntMap(c.Cap, c.LF)
 	}
-	return hmap.NewIntIntMap(c.Cap, c.LF)
+	if c.None != 0 {
+		m.NONE = c.None // public configuration: what the map answers for "no such entry"
+	}
+	return m
 }
 
 // the constructors the wire round trip reads into (op.V picks one)
@@ -215,6 +306,9 @@ var rtCtors = []Ctor{{Default: true}, {Cap: 1, LF: 0.75}, {Cap: 3, LF: 1}, {Cap:
 func intIntObj(p *intPool, ctor Ctor) *Obj {
 	m := newIntIntMap(ctor)
 	o := &Obj{Type: "IntIntMap", Ctor: ctor.String(), N: len(p.keys), Ops: map[string]func(Op) Ev{}, Pool: p.describe()}
+	if ctor.None != 0 {
+		o.Hdr = Ev{"none": []int{int(ctor.None)}}
+	}
 	lim := func() int { return m.Size() + enumSlack }
 	ret := func(v int32) Ev { return Ev{"ret": []int{int(v)}} }
 	o.Size = func() int { return m.Size() }
@@ -283,6 +377,7 @@ func intIntObj(p *intPool, ctor Ctor) *Obj {
 	o.Ops["RoundTrip"] = func(op Op) Ev {
 		b := wire()
 		c := rtCtors[((op.V%len(rtCtors))+len(rtCtors))%len(rtCtors)]
+		c.None = ctor.None                                 // the map read into is configured like the one written
 		m = newIntIntMap(c).ToObject(gio.NewDataInputX(b)) // the read-back map replaces the object under test
 		ks, vs := o.Proj()
 		return Ev{"keys": nz(ks), "vals": nz(vs), "into": c.String()}
@@ -314,11 +409,11 @@ func intKeyObj(p *intPool, ctor Ctor) *Obj {
 		})
 		return
 	}
-	o.Ops["Put"] = func(op Op) Ev { return Ev{"ret": pObj(m.Put(p.key(op.K), op.V))} }
+	o.Ops["Put"] = func(op Op) Ev { return Ev{"ret": pObj(m.Put(p.key(op.K), box(op.V)))} }
 	o.Ops["Get"] = func(op Op) Ev { return Ev{"ret": pObj(m.Get(p.key(op.K)))} }
 	o.Ops["Remove"] = func(op Op) Ev { return Ev{"ret": pObj(m.Remove(p.key(op.K)))} }
 	o.Ops["ContainsKey"] = func(op Op) Ev { return Ev{"b": m.ContainsKey(p.key(op.K))} }
-	o.Ops["ContainsValue"] = func(op Op) Ev { return Ev{"b": m.ContainsValue(op.V)} }
+	o.Ops["ContainsValue"] = func(op Op) Ev { return Ev{"b": m.ContainsValue(box(op.V))} }
 	o.Ops["Clear"] = func(op Op) Ev { m.Clear(); return Ev{} }
 	o.Ops["Keys"] = func(op Op) Ev {
 		seq := []int{}
@@ -352,7 +447,7 @@ func intKeyObj(p *intPool, ctor Ctor) *Obj {
 		if len(op.Ks) > 0 || op.V != 0 {
 			other = newIntKeyMap(rtCtors[((op.V%len(rtCtors))+len(rtCtors))%len(rtCtors)])
 			for i, k := range op.Ks {
-				other.Put(p.key(k), op.Vs[i])
+				other.Put(p.key(k), box(op.Vs[i]))
 			}
 		}
 		m.PutAll(other)
